@@ -5,8 +5,8 @@
    oracle `S`; every theorem holds for EVERY value of both. *)
 From Coq Require Import String Ascii.
 From Coq Require Import List Arith Bool ZArith QArith Qabs Lia.
-From NV.Generated Require Import NiftiTables.
-From NV.C03 Require Import Model Exec Proofs Proofs2 Proofs3.
+From NV.Generated Require Import NiftiTables NiftiUnits.
+From NV.C03 Require Import Model Exec Proofs Proofs2 Proofs3 UnitsModel ProofsUnits.
 Import ListNotations.
 Close Scope Q_scope.
 Open Scope string_scope.
@@ -273,3 +273,54 @@ Example roundtrip_nonvacuous :
     /\ dat r [1; 0; 1; 1; 2] = dat (mk_img [] [] [] [] [2; 2; 2; 3; 2] 0%Q) [1; 0; 1; 2; 1].
 Proof. eexists _, _. repeat split; vm_compute; reflexivity. Qed.
 Print Assumptions roundtrip_nonvacuous.
+
+(* (9) space units.  nipy2nifti writes the one constant space unit found in its source (mm), whatever
+   units the image's old metadata header records (`stale`), and that unit is not rescaled on load:
+   loading what was written, with the written units, is plain nifti2nipy - so roundtrip_geometry
+   holds unchanged for images that came from micron / meter files. *)
+Theorem saved_space_units_never_rescaled_on_reload :
+  forall V stale strict fix0 O S (im : img V) h u,
+    nipy2nifti_u V stale strict fix0 O S im = Ok (h, u) ->
+    nipy2nifti V strict fix0 O S im = Ok h /\ xyz_factor u = None /\ nifti2nipy_u V u h = nifti2nipy V h.
+Proof. exact saved_units_reload. Qed.
+Print Assumptions saved_space_units_never_rescaled_on_reload.
+
+(* (10) loading with space units u: every entry (i, j) of the xyz affine rows - matrix part and
+   translation, any size - is the factor of the unit (1/1000 micron, 1000 meter; generated) times the
+   stored entry, the shape of the rows is kept ... *)
+Theorem space_units_scale_every_affine_entry :
+  forall f M,
+    (forall i j, (nth j (nth i (scale_rows f M) []) 0 == f * nth j (nth i M []) 0)%Q)
+    /\ length (scale_rows f M) = length M /\ map (@length Q) (scale_rows f M) = map (@length Q) M.
+Proof. intros f M. split; [intros i j; apply scale_rows_entry|apply scale_rows_shape]. Qed.
+Print Assumptions space_units_scale_every_affine_entry.
+
+(* ... (11) and nothing but the xyz affine rows depends on the units: same refusal, same names, shape, data,
+   toffset, same non-spatial rows and translations. *)
+Theorem space_units_touch_xyz_affine_only :
+  forall V u (h : nimg V),
+    match nifti2nipy V h, nifti2nipy_u V u h with
+    | Ok r, Ok r' => inn r' = inn r /\ outn r' = outn r /\ shp r' = shp r /\ dat r' = dat r
+                     /\ meta_toffset r' = meta_toffset r /\ length (lin r') = length (lin r)
+                     /\ length (trn r') = length (trn r)
+                     /\ skipn (length (h_aff h)) (lin r') = skipn (length (h_aff h)) (lin r)
+                     /\ skipn (length (h_aff h)) (trn r') = skipn (length (h_aff h)) (trn r)
+    | Err e, Err e' => e = e'
+    | _, _ => False
+    end.
+Proof. exact units_touch_affine_only. Qed.
+Print Assumptions space_units_touch_xyz_affine_only.
+
+(* non-vacuity: a 4-D micron header with a shear: xyz rows and origin divided by 1000, time zoom and toffset kept;
+   meter multiplies; mm and unknown leave the header alone *)
+Example space_units_nonvacuous :
+  let h := mk_nimg [[0; -250; 30; 1000]; [300; 0; 0; -2000]; [0; 40; -500; 3000]]%Q "mni" "mni" [None; None; None]
+                   "sec" [5 # 2]%Q (3 # 2)%Q [3; 4; 5; 6] in
+  (exists r, nifti2nipy_u Z "micron" h = Ok r
+     /\ lin r = [[0; -1 # 4; 3 # 100; 0]; [3 # 10; 0; 0; 0]; [0; 1 # 25; -1 # 2; 0]; [0; 0; 0; 5 # 2]]%Q
+     /\ trn r = [1; -2; 3; 3 # 2]%Q)
+  /\ (exists r, nifti2nipy_u Z "meter" h = Ok r /\ nth 0 (trn r) 0%Q = 1000000%Q /\ nth 3 (trn r) 0%Q = (3 # 2)%Q)
+  /\ nifti2nipy_u Z "mm" h = nifti2nipy Z h /\ nifti2nipy_u Z "unknown" h = nifti2nipy Z h
+  /\ written_xyz_units = "mm".
+Proof. cbv zeta. repeat split; try (eexists; repeat split; vm_compute; reflexivity); vm_compute; reflexivity. Qed.
+Print Assumptions space_units_nonvacuous.
